@@ -272,6 +272,21 @@ var xPieces = []piece{
 			fmt.Sprintf("outer%d:\nfor i := 0; i < %d; i++ {\n\tswitch {\n\tcase i %% 3 == 0:\n\t\tcontinue outer%d\n\tcase i > %d:\n\t\tbreak outer%d\n\tdefault:\n\t\t%s += i\n\t}\n}", p.n, 5+r.Intn(10), p.n, 3+r.Intn(8), p.n, n),
 			fmt.Sprintf("echo %s", n))
 	}},
+	{"late-callee-shadow-pkg", func(r *vh.Rand, p *XProg) {
+		p.Imports["strconv"] = true
+		t, u, k := p.id("fakeConv"), p.id("unit"), p.id("keep")
+		p.Decls = append(p.Decls,
+			fmt.Sprintf("type %s struct{}", t),
+			fmt.Sprintf("func (%s) Itoa(n int) string {\n\treturn \"local\"\n}", t),
+			fmt.Sprintf("func %s() string {\n\tstrconv := %s{}\n\t_ = strconv\n\treturn %s(%d)\n}", u, t, k, r.Intn(100)),
+			fmt.Sprintf("func %s(n int) string {\n\treturn strconv.Itoa(n)\n}", k))
+		p.Stmts = append(p.Stmts, fmt.Sprintf("echo %s()", u))
+	}},
+	{"paren-complit-header", func(r *vh.Rand, p *XProg) {
+		t := p.id("hdr")
+		p.Decls = append(p.Decls, fmt.Sprintf("type %s struct {\n\ta, b int\n}", t))
+		p.Stmts = append(p.Stmts, fmt.Sprintf("if x := (%s{%d, 2}); x.a > %d {\n\techo \"big\", x\n} else if y := (%s{}); y == (%s{}) {\n\techo \"zero\", x, y\n}", t, r.Intn(10), r.Intn(10), t, t))
+	}},
 	{"closures", func(r *vh.Rand, p *XProg) {
 		f := p.id("counter")
 		p.Decls = append(p.Decls, fmt.Sprintf("func %s(step int) func() int {\n\tn := 0\n\treturn func() int {\n\t\tn += step\n\t\treturn n\n\t}\n}", f))
